@@ -18,6 +18,8 @@ use crate::{
     gf2::GF2,
     sparse::SparseMatrix,
 };
+#[cfg(ldpc_toolbox_verif)]
+use crate::verif_seam::{num_cpus, rand, std};
 use ndarray::Array1;
 use num_traits::{One, Zero};
 use rand::{Rng, distr::StandardUniform};
